@@ -16,6 +16,9 @@ Ltac cmp8 :=
   change (8 <=? 8) with true in *; change (8 <=? 16) with true in *; change (8 <=? 24) with true in *;
   change (8 <=? 32) with true in *.
 
+Section WithUsize.
+Context {U : Usize}.
+
 Definition fits_usize (x : Z) : bool := (0 <=? x) && (x <=? usize_max).
 Definition fits_u32 (x : Z) : bool := (0 <=? x) && (x <=? u32_max).
 Definition fits_u8 (x : Z) : bool := (0 <=? x) && (x <=? 255).
@@ -42,7 +45,8 @@ Definition load_store_bits_sites (t : rawty) (alt : order) (index : Z) : list bo
 Lemma load_store_bits_total t alt index :
   sub_byte t -> 0 <= index <= usize_max -> all_ok (load_store_bits_sites t alt index) = true.
 Proof.
-  intros St Hi. unfold all_ok, load_store_bits_sites, bit_position_sites, bit_position, fits_usize, shift_ok, nonzero, usize_max in *.
+  intros St Hi. pose proof usize_at_least_16 as U16.
+  unfold all_ok, load_store_bits_sites, bit_position_sites, bit_position, fits_usize, shift_ok, nonzero in *.
   destruct St as [->|[->| ->]]; destruct alt; cbn [bits app forallb snd]; divs; lia.
 Qed.
 
@@ -98,18 +102,21 @@ Definition set_pixel_sites (c : fbcfg) (n : Z) (p : Z * Z) : list bool :=
         fits_usize (index + nbytes t); index + nbytes t <=? n ]       (* self.data[index..index + BYTES] *)
   end.
 
+(* the hypothesis on WIDTH * bpp + 7 says that BUFFER_SIZE (the const buffer_size_bpp, same expression) could be
+   evaluated at compile time; on a 64-bit usize it follows from WIDTH <= i32::MAX *)
 Lemma set_pixel_total c data p :
-  fb_ok c data -> fb_inside c p -> all_ok (set_pixel_sites c (buf_len data) p) = true.
+  fb_ok c data -> fb_w c * bits (fb_t c) + 7 <= usize_max -> fb_inside c p ->
+  all_ok (set_pixel_sites c (buf_len data) p) = true.
 Proof.
-  intros (Hw & Hh & Hb & Hl & Hn) Hin.
+  intros (Hw & Hh & Hb & Hl & Hn) Hc Hin. revert Hc.
   pose proof (pix_index_range c p (proj1 Hw) (proj1 Hh) Hin) as R.
   destruct Hin as [Hx Hy]. destruct p as [x y]. cbn [fst snd] in *.
-  unfold len_ok in Hl. revert R Hn.
+  unfold len_ok in Hl. intros Hc. revert Hc R Hn.
   unfold pix_index, fb_data_width, fb_buffer_size, buffer_size_bpp, bytes_per_row, pixels_total, set_pixel_sites,
-    all_ok, fits_usize, fits_u8, shift_ok, nonzero, usize_max in *. cbn [fst snd].
+    all_ok, fits_usize, fits_u8, shift_ok, nonzero in *. cbn [fst snd]. pose proof usize_at_least_16 as U16.
   destruct c as [t alt w h]. cbn [fb_t fb_w fb_h fb_alt] in *. unfold i32_max in *.
   destruct t; cbn [bits nbytes];
-    cmp8; cbv iota; divs; intros R Hn.
+    cmp8; cbv iota; divs; intros Hc R Hn.
   - set (r := (w * 1 + 7) / 8) in *. assert (0 <= r) by (unfold r; lia). assert (w <= r * 8) by (unfold r; lia).
     assert (0 <= r * y) by nia. assert (r * y + r <= r * h) by nia. clearbody r.
     destruct alt; cbn [forallb]; change (2 ^ 1) with 2; lia.
@@ -128,13 +135,23 @@ Proof.
     cbn [forallb]. nb. assert (0 <= y * w) by nia. lia.
 Qed.
 
-(* display scale: sizes up to 2^24 in each direction (the C08 statement needs 1024) *)
-Lemma buffer_size_total w h bpp :
-  0 <= w <= 16777216 -> 0 <= h <= 16777216 -> 1 <= bpp <= 32 -> all_ok (buffer_size_sites w h bpp) = true.
+(* buffer_size: whenever the two products fit (any usize), and hence at display scale (up to 4096 x 4096 at 32 bpp)
+   on every target whose usize has at least 32 bits *)
+Lemma buffer_size_total_gen w h bpp :
+  0 <= w -> 0 <= h -> 1 <= bpp <= 32 -> w * bpp + 7 <= usize_max -> (w * bpp + 7) / 8 * h <= usize_max ->
+  all_ok (buffer_size_sites w h bpp) = true.
 Proof.
-  intros Hw Hh Hb. unfold all_ok, buffer_size_sites, fits_usize, usize_max. cbn [forallb].
-  assert (0 <= w * bpp <= 16777216 * 32) by nia.
-  assert (0 <= (w * bpp + 7) / 8 <= 16777216 * 4) by lia. nia.
+  intros Hw Hh Hb H1 H2. unfold all_ok, buffer_size_sites, fits_usize. cbn [forallb].
+  assert (0 <= w * bpp) by nia. assert (0 <= (w * bpp + 7) / 8) by lia. assert (0 <= (w * bpp + 7) / 8 * h) by nia. lia.
+Qed.
+
+Lemma buffer_size_total w h bpp :
+  4294967295 <= usize_max -> 0 <= w <= 4096 -> 0 <= h <= 4096 -> 1 <= bpp <= 32 ->
+  all_ok (buffer_size_sites w h bpp) = true.
+Proof.
+  intros Hu Hw Hh Hb. assert (0 <= w * bpp <= 4096 * 32) by nia.
+  assert (0 <= (w * bpp + 7) / 8 <= 16385) by lia.
+  apply buffer_size_total_gen; try lia. nia.
 Qed.
 
 (* ---- src/image/image_raw.rs (the part Framebuffer::pixel goes through) ------------------------------------------ *)
@@ -150,22 +167,38 @@ Definition image_pixel_sites (im : image) (p : Z * Z) : list bool :=
 
 Lemma image_pixel_total im p :
   0 <= img_w im <= i32_max -> 0 <= img_h im <= i32_max ->
+  img_w im * bits (img_t im) + 7 <= usize_max -> img_h im * data_width im <= usize_max ->
   0 <= fst p < img_w im -> 0 <= snd p < img_h im ->
   all_ok (image_pixel_sites im p) = true.
 Proof.
-  intros Hw Hh Hx Hy. destruct p as [x y]. cbn [fst snd] in *.
-  unfold all_ok, image_pixel_sites, data_width, bytes_per_row, fits_usize, fits_u32, nonzero, usize_max, u32_max, i32_max in *.
+  intros Hw Hh Hu1 Hu2 Hx Hy. destruct p as [x y]. cbn [fst snd] in *. revert Hu1 Hu2.
+  unfold all_ok, image_pixel_sites, data_width, bytes_per_row, fits_usize, fits_u32, nonzero, u32_max, i32_max in *.
   destruct im as [t alt d w h]. cbn [img_t img_w img_h] in *.
   destruct t; cbn [bits];
-    cmp8; cbv iota; divs; cbn [forallb].
-  - set (r := (w * 1 + 7) / 8) in *. assert (0 <= r <= 268435456) by (unfold r; lia). clearbody r.
-    assert (0 <= y * (r * 8) <= 2147483647 * 2147483648) by nia. lia.
-  - set (r := (w * 2 + 7) / 8) in *. assert (0 <= r <= 536870912) by (unfold r; lia). clearbody r.
-    assert (0 <= y * (r * 4) <= 2147483647 * 2147483648) by nia. lia.
-  - set (r := (w * 4 + 7) / 8) in *. assert (0 <= r <= 1073741824) by (unfold r; lia). clearbody r.
-    assert (0 <= y * (r * 2) <= 2147483647 * 4294967296) by nia. lia.
-  - assert (0 <= y * w <= 2147483647 * 2147483647) by nia. lia.
-  - assert (0 <= y * w <= 2147483647 * 2147483647) by nia. lia.
-  - assert (0 <= y * w <= 2147483647 * 2147483647) by nia. lia.
-  - assert (0 <= y * w <= 2147483647 * 2147483647) by nia. lia.
+    cmp8; cbv iota; divs; cbn [forallb]; intros Hu1 Hu2.
+  - set (r := (w * 1 + 7) / 8) in *. assert (0 <= r <= 268435456) by (unfold r; lia). assert (w <= r * 8) by (unfold r; lia). clearbody r.
+    assert (0 <= y * (r * 8)) by nia. assert (y * (r * 8) + r * 8 <= h * (r * 8)) by nia. lia.
+  - set (r := (w * 2 + 7) / 8) in *. assert (0 <= r <= 536870912) by (unfold r; lia). assert (w <= r * 4) by (unfold r; lia). clearbody r.
+    assert (0 <= y * (r * 4)) by nia. assert (y * (r * 4) + r * 4 <= h * (r * 4)) by nia. lia.
+  - set (r := (w * 4 + 7) / 8) in *. assert (0 <= r <= 1073741824) by (unfold r; lia). assert (w <= r * 2) by (unfold r; lia). clearbody r.
+    assert (0 <= y * (r * 2)) by nia. assert (y * (r * 2) + r * 2 <= h * (r * 2)) by nia. lia.
+  - assert (0 <= y * w) by nia. assert (y * w + w <= h * w) by nia. lia.
+  - assert (0 <= y * w) by nia. assert (y * w + w <= h * w) by nia. lia.
+  - assert (0 <= y * w) by nia. assert (y * w + w <= h * w) by nia. lia.
+  - assert (0 <= y * w) by nia. assert (y * w + w <= h * w) by nia. lia.
 Qed.
+
+(* on a 64-bit (or wider) usize the two size conditions follow from WIDTH, HEIGHT <= i32::MAX *)
+Lemma image_pixel_total64 im p :
+  18446744073709551615 <= usize_max ->
+  0 <= img_w im <= i32_max -> 0 <= img_h im <= i32_max ->
+  0 <= fst p < img_w im -> 0 <= snd p < img_h im ->
+  all_ok (image_pixel_sites im p) = true.
+Proof.
+  intros Hu Hw Hh Hx Hy. apply image_pixel_total; auto.
+  - unfold i32_max in *. assert (1 <= bits (img_t im) <= 32) by (destruct (img_t im); cbv; split; congruence). nia.
+  - unfold data_width, bytes_per_row, i32_max in *. destruct im as [t alt d w h]. cbn [img_t img_w img_h] in *.
+    destruct t; cbn [bits]; cmp8; cbv iota; divs; nia.
+Qed.
+
+End WithUsize.
